@@ -189,6 +189,8 @@ NoEntriesDuringTransferStep(before, after, T) ==
 \* ---- end of a recorded run: every node was shut down; tasks and (after a fair, fault-free continuation) convergence
 IsFinal(ev) == "kind" \in DOMAIN ev /\ ev.kind = "final"
 AllTasksCompleteStep(ev) == IsFinal(ev) => Len(ev.pending) = 0
+\* ... and exactly once: the outcome a task completed with is still its outcome at the end of the run
+TaskCompletesOnceStep(ev) == (IsFinal(ev) /\ "changed" \in DOMAIN ev) => Len(ev.changed) = 0
 ConvergesStep(ev) == ("kind" \in DOMAIN ev /\ ev.kind = "fairCheck") => ev.converged
 
 StepViolations(gh, before, after, ev, T) ==
@@ -200,6 +202,7 @@ StepViolations(gh, before, after, ev, T) ==
   \cup (IF LeaderStickinessStep(before, after, ev) THEN {} ELSE {"C17_LeaderStickiness"})
   \cup (IF RestartOKStep(gh, before, after, ev) THEN {} ELSE {"C10_RestartOK"})
   \cup (IF AllTasksCompleteStep(ev) THEN {} ELSE {"C15_AllTasksComplete"})
+  \cup (IF TaskCompletesOnceStep(ev) THEN {} ELSE {"C15_TaskCompletesOnce"})
   \cup (IF ConvergesStep(ev) THEN {} ELSE {"C17_Converges"})
   \cup (IF TransferSuccessStep(before, after, ev) THEN {} ELSE {"C16_SuccessMeansSteppedDown"})
   \cup (IF TransferTargetStep(ev) THEN {} ELSE {"C16_TargetEligible"})
